@@ -234,8 +234,9 @@ func (g *TGen) Target() ast.Expression {
 // Statement wraps an expression: expression statement, let initialiser, or
 // return value inside a function declaration.
 func (g *TGen) Program() *ast.Program {
-	follow := sym.Param("follow", 0) == 1 // a second, indented statement follows
-	if follow {
+	followKind := sym.Param("follow", 0) // 1: a function declaration follows (indented body); 2: a bare block statement follows
+	follow := followKind == 1
+	if followKind != 0 {
 		g.emit(KProgram, 2)
 	} else {
 		g.emit(KProgram, 1)
@@ -267,6 +268,12 @@ func (g *TGen) Program() *ast.Program {
 		g.emit(KEnd)
 		stmts = append(stmts, &ast.FunctionDeclaration{Token: tk(token.FUNCTION, "function"), Name: name, Parameters: []*ast.Identifier{},
 			Body: &ast.BlockStatement{Token: tk(token.LBRACE, "{"), Statements: []ast.Statement{ret}, RBrace: tk(token.RBRACE, "}")}})
+	}
+	if followKind == 2 {
+		g.emit(KBlock, 1, KExprStmt)
+		inner := &ast.ExpressionStatement{Expression: g.ident("a")}
+		g.emit(KEnd)
+		stmts = append(stmts, &ast.BlockStatement{Token: tk(token.LBRACE, "{"), Statements: []ast.Statement{inner}, RBrace: tk(token.RBRACE, "}")})
 	}
 	g.emit(KEnd)
 	return &ast.Program{Statements: stmts}
